@@ -1,6 +1,7 @@
 (* C05 - streaming decoder output is independent of the data arrival schedule.  Statements only. *)
 From PV Require Import Base.Bytes Model.Proc Model.Types Model.Enc Model.Dec Proofs.ProcSim Proofs.ProcSched Proofs.DecStream
-     Model.TableTypes Gen.Tables Proofs.RoundTrip2 Proofs.StreamStage2.
+     Model.TableTypes Gen.Tables Proofs.RoundTrip1 Proofs.RoundTrip2 Proofs.StreamStage2 Proofs.RoundTrip3b Proofs.RoundTripModesC Proofs.RoundTripModes
+     Proofs.StreamClean Proofs.StreamStage3.
 Local Open Scope nat_scope.
 
 (* Generic: any decoder that touches its input only through all-or-nothing, re-tryable reads,
@@ -64,3 +65,30 @@ Example C05_stage2_any_schedule_nonvacuous :
   /\ drive sched (dec_item BER 60 (Some stage2_example_ty)) (mkStream [] 0 false 0)
      = repeat OUnder 4 ++ [ODone (Ok (DV stage2_example_ty stage2_example_val)) 50].
 Proof. exact c05_example. Qed.
+
+(* The whole universe, definite mode, encoder BER/DER, any decoder: ANY arrival schedule gives the
+   one-shot result *)
+Theorem C05_stage3_any_schedule : forall ce cd T v b,
+  enc_ok ce -> stage3_ty false ce T = true -> stage3_val ce cd T v = true ->
+  encode ce true 0 T v = Ok b -> (N.of_nat (length b) <= index_max)%N ->
+  exists v', abs T v' = abs T v /\
+    forall fuel tl sched, (length b + ty_depth T <= fuel)%nat ->
+    wf_sched false sched -> arrivals sched = b ++ tl ->
+    decode_with cd fuel (Some T) (b ++ tl) = Ok (DV T v', tl)
+    /\ exists j, drive sched (dec_item cd fuel (Some T)) (mkStream [] 0 false 0)
+                 = repeat OUnder j ++ [ODone (Ok (DV T v')) (length b)].
+Proof. exact c05_stage3_sched. Qed.
+Print Assumptions C05_stage3_any_schedule.
+
+(* Indefinite-length mode: chunk boundaries may fall anywhere, also inside an end-of-octets marker *)
+Theorem C05_indefinite_any_schedule : forall cd chunk T v b,
+  dec_ok cd -> stage2_ty T = true -> RoundTripModes.no_f01 T = true -> modes_val BER cd T v = true ->
+  encode BER false chunk T v = Ok b -> (N.of_nat (length b) <= index_max)%N ->
+  exists v', abs T v' = abs T v /\
+    forall fuel tl sched, (length b + ty_depth T <= fuel)%nat ->
+    wf_sched false sched -> arrivals sched = b ++ tl ->
+    decode_with cd fuel (Some T) (b ++ tl) = Ok (DV T v', tl)
+    /\ exists j, drive sched (dec_item cd fuel (Some T)) (mkStream [] 0 false 0)
+                 = repeat OUnder j ++ [ODone (Ok (DV T v')) (length b)].
+Proof. exact c05_indefinite. Qed.
+Print Assumptions C05_indefinite_any_schedule.
